@@ -691,7 +691,7 @@ impl<'a> GExec<'a> {
             let m = self.gws[g].m.clone();
             let e = self.sim.query(&gaddr, "epoch", SVec::new(&env));
             let ev = e.val().and_then(|v| u64::try_from_val_(&env, v));
-            if !ctx.check(ev == Some(m.epoch), &["C03", "C08"], "invariant/epoch-differs", || {
+            if !ctx.check(ev == Some(m.epoch), &["C03", "C08", "C01"], "invariant/epoch-differs", || {
                 format!("gateway {} epoch() = {:?}, history says {}", g, ev, m.epoch)
             }) {
                 return;
@@ -704,7 +704,7 @@ impl<'a> GExec<'a> {
                 let b = self.sim.query(&gaddr, "epoch_by_signers_hash", (BytesN::from_array(&env, h),).into_val(&env));
                 let av = a.val().and_then(|v| BytesN::<32>::try_from_val_(&env, v)).map(|b| b.to_array());
                 let bv = b.val().and_then(|v| u64::try_from_val_(&env, v));
-                if !ctx.check(av == Some(*h) && bv == Some(*ep), &["C03"], "invariant/lookups-not-inverse", || {
+                if !ctx.check(av == Some(*h) && bv == Some(*ep), &["C03", "C08", "C01"], "invariant/lookups-not-inverse", || {
                     format!("gateway {} epoch {}: hash_by_epoch={:?} epoch_by_hash={:?}", g, ep, av.map(hex::encode), bv)
                 }) {
                     return;
@@ -755,7 +755,7 @@ impl<'a> GExec<'a> {
             let pv = p.val().and_then(|v| Address::try_from_val_(&env, v));
             if !ctx.check(
                 ov.as_ref() == Some(&self.principals[m.owner]) && pv.as_ref() == Some(&self.principals[m.operator]),
-                &["C06"],
+                &["C06", "C09"],
                 "invariant/role-holder-differs",
                 || format!("gateway {} owner()/operator() differ from the transfer history", g),
             ) {
